@@ -433,8 +433,10 @@ def run(prop, repo, chk, seed):
             kinds[name] = 'skipped'
             continue
         add('must', name, {rel: mutated})
-    # benign
-    for rel in sorted(mods):
+    # benign / generic variants are made for the twelve modules that hold most of the analysed functions (the dependency cone
+    # of a pipeline-wide property spans two dozen modules; every module is still covered by the must-kill set and the rules)
+    variant_mods = sorted(sorted(mods, key=lambda r_: (-len(mods[r_]), r_))[:12])
+    for rel in variant_mods:
         try:
             add('benign', 'alpha-rename:' + rel, {rel: alpha_rename(files[rel])})
             add('benign', 'reformat:' + rel, {rel: reformat(files[rel])})
@@ -444,8 +446,8 @@ def run(prop, repo, chk, seed):
         except SyntaxError:
             pass
     # generic
-    per_mod = max(6, 48 // max(1, len(mods)))
-    for rel in sorted(mods):
+    per_mod = max(6, 48 // max(1, len(variant_mods)))
+    for rel in variant_mods:
         for desc, text in generic_mutants(files[rel], mods[rel], rnd, per_mod):
             add('generic', 'generic:%s %s' % (rel, desc), {rel: text})
     results = {}
